@@ -158,4 +158,97 @@ theorem segLens_join (len : Pt → Pt → Rat) : ∀ (pa : List Pt) (j : Pt) (qb
     simp only [List.cons_append, segLens] at this ⊢
     rw [this]
 
+/-! ### Euclidean side condition, strict monotonicity of the arc length -/
+
+/-- Consecutive vertices are distinct (the property's precondition on a lanelet's centre line). -/
+def DistinctConsec : List Pt → Prop
+  | a :: b :: t => a ≠ b ∧ DistinctConsec (b :: t)
+  | _ => True
+
+theorem distSq_pos {a b : Pt} (h : a ≠ b) : 0 < distSq a b := by
+  unfold distSq
+  by_contra hle
+  have h1 : 0 ≤ (b.1 - a.1) * (b.1 - a.1) := mul_self_nonneg _
+  have h2 : 0 ≤ (b.2 - a.2) * (b.2 - a.2) := mul_self_nonneg _
+  have e1 : (b.1 - a.1) * (b.1 - a.1) = 0 := by linarith
+  have e2 : (b.2 - a.2) * (b.2 - a.2) = 0 := by linarith
+  have f1 : b.1 - a.1 = 0 := mul_self_eq_zero.mp e1
+  have f2 : b.2 - a.2 = 0 := mul_self_eq_zero.mp e2
+  apply h
+  ext <;> linarith
+
+theorem isEuclid_length : ∀ (c : List Pt) (ℓ : List Rat), isEuclid c ℓ = true → c.length = ℓ.length + 1
+  | [], _, h => by simp [isEuclid] at h
+  | [_], [], _ => rfl
+  | [_], _ :: _, h => by simp [isEuclid] at h
+  | _ :: _ :: _, [], h => by simp [isEuclid] at h
+  | a :: b :: t, x :: xs, h => by
+    simp only [isEuclid, Bool.and_eq_true] at h
+    have := isEuclid_length (b :: t) xs h.2
+    simp only [List.length_cons] at this ⊢
+    omega
+
+theorem isEuclid_get : ∀ (c : List Pt) (ℓ : List Rat) (h : isEuclid c ℓ = true) (i : Nat) (hi : i < ℓ.length),
+    0 ≤ ℓ[i] ∧ ℓ[i] * ℓ[i] = distSq (c[i]'(by have := isEuclid_length c ℓ h; omega))
+                                      (c[i + 1]'(by have := isEuclid_length c ℓ h; omega))
+  | [], _, h, _, _ => by simp [isEuclid] at h
+  | [_], [], _, _, hi => by simp at hi
+  | [_], _ :: _, h, _, _ => by simp [isEuclid] at h
+  | _ :: _ :: _, [], h, _, _ => by simp [isEuclid] at h
+  | a :: b :: t, x :: xs, h, 0, _ => by
+    simp only [isEuclid, Bool.and_eq_true, decide_eq_true_eq] at h
+    exact ⟨h.1.1, h.1.2⟩
+  | a :: b :: t, x :: xs, h, i + 1, hi => by
+    have h' : isEuclid (b :: t) xs = true := by
+      simp only [isEuclid, Bool.and_eq_true] at h; exact h.2
+    have := isEuclid_get (b :: t) xs h' i (by simpa using hi)
+    simpa using this
+
+theorem isEuclid_unique : ∀ (c : List Pt) (ℓ ℓ' : List Rat), isEuclid c ℓ = true → isEuclid c ℓ' = true → ℓ = ℓ'
+  | [], _, _, h, _ => by simp [isEuclid] at h
+  | [_], [], [], _, _ => rfl
+  | [_], _ :: _, _, h, _ => by simp [isEuclid] at h
+  | [_], [], _ :: _, _, h => by simp [isEuclid] at h
+  | _ :: _ :: _, [], _, h, _ => by simp [isEuclid] at h
+  | _ :: _ :: _, _ :: _, [], _, h => by simp [isEuclid] at h
+  | a :: b :: t, x :: xs, y :: ys, h, h' => by
+    simp only [isEuclid, Bool.and_eq_true, decide_eq_true_eq] at h h'
+    have hxy : x = y := by
+      have e : x * x = y * y := by rw [h.1.2, h'.1.2]
+      nlinarith [h.1.1, h'.1.1, mul_self_nonneg (x - y), mul_self_nonneg (x + y)]
+    rw [hxy, isEuclid_unique (b :: t) xs ys h.2 h'.2]
+
+theorem isEuclid_pos : ∀ (c : List Pt) (ℓ : List Rat), isEuclid c ℓ = true → DistinctConsec c → ∀ x ∈ ℓ, 0 < x
+  | [], _, h, _ => by simp [isEuclid] at h
+  | [_], [], _, _ => by simp
+  | [_], _ :: _, h, _ => by simp [isEuclid] at h
+  | _ :: _ :: _, [], h, _ => by simp [isEuclid] at h
+  | a :: b :: t, x :: xs, h, hd => by
+    simp only [isEuclid, Bool.and_eq_true, decide_eq_true_eq] at h
+    intro y hy
+    simp only [List.mem_cons] at hy
+    rcases hy with rfl | hy
+    · have hp := distSq_pos hd.1
+      rcases eq_or_lt_of_le h.1.1 with h0 | hpos
+      · rw [← h.1.2, ← h0] at hp; simp at hp
+      · exact hpos
+    · exact isEuclid_pos (b :: t) xs h.2 hd.2 y hy
+
+theorem prefixLen_mono {ℓ : List Rat} (h : ∀ x ∈ ℓ, 0 ≤ x) {i j : Nat} (hij : i ≤ j) (hj : j ≤ ℓ.length) :
+    prefixLen ℓ i ≤ prefixLen ℓ j := by
+  induction j, hij using Nat.le_induction with
+  | base => exact le_refl _
+  | succ k hk ih =>
+    have hk' : k < ℓ.length := by omega
+    rw [prefixLen_succ ℓ k hk']
+    have := h ℓ[k] (by simp)
+    have := ih (by omega)
+    linarith
+
+theorem distSq_blend_left (t : Rat) (a b : Pt) : distSq a (blend t a b) = (t * t) * distSq a b := by
+  simp only [distSq, blend]; ring
+
+theorem distSq_blend_right (t : Rat) (a b : Pt) : distSq (blend t a b) b = ((1 - t) * (1 - t)) * distSq a b := by
+  simp only [distSq, blend]; ring
+
 end CR.Arc
